@@ -88,7 +88,7 @@ def initHandlers (nid : Nat) : Nat → List Conf → List Handler
   | _, [] => []
   | i, c :: cs => mkHandler (nid + i) (i + 1) c :: initHandlers nid (i + 1) cs
 
-def initialize (f : List Conf) : St :=
+def initSt (f : List Conf) : St :=
   if f.all validScheme then
     { handlers := initHandlers 0 0 f, nextId := f.length, cfg := f }
   else { dead := true, cfg := f }
